@@ -144,7 +144,8 @@ Inductive ixkind :=
 Record ixobs := mkObs {
   o_codes : list Z; o_panic : bool; o_full : bool;
   o_dump : idump; o_stat : istat; o_q1 : list qans;
-  o_dump3 : idump; o_q3 : list qans }.
+  o_dump3 : idump; o_q3 : list qans;
+  o_p1 : list (list chunk); o_p3 : list (list chunk) }.   (* what the public Chunks returned (Adjacent applied) *)
 
 Record ixcase := mkCase {
   k_kind : ixkind; k_recs : list irec; k_queries : list (Z * Z * Z); k_strat : ixstrat;
@@ -153,8 +154,9 @@ Record ixcase := mkCase {
 Section Agree.
   Context {S : Type} (m : machine S) (init : S).
 
-  (** The six comparisons, in order: Add outcomes, structure after Add,
-      statistics, answers, structure after MergeChunks, answers after it. *)
+  (** The comparisons, in order: Add outcomes, structure after Add, statistics,
+      answers, structure after MergeChunks, answers after it, and the public
+      answers (index.Adjacent applied to the raw list) before and after the merge. *)
   Definition run_compare (c : ixcase) : list bool :=
     let o := k_obs c in
     let '(s, codes, p) := run_adds m init (k_recs c) in
@@ -165,7 +167,9 @@ Section Agree.
     let s3 := match strat_fn (k_strat c) with Some f => m_merge m f s2 | None => s2 end in
     let '(a3, _) := run_queries m s3 (k_queries c) in
     [c1; idump_eqb (m_dump m s) (o_dump o); istat_eqb (m_stat m s) (o_stat o);
-     xlist_eqb qans_eqb a1 (o_q1 o); idump_eqb (m_dump m s3) (o_dump3 o); xlist_eqb qans_eqb a3 (o_q3 o)].
+     xlist_eqb qans_eqb a1 (o_q1 o); idump_eqb (m_dump m s3) (o_dump3 o); xlist_eqb qans_eqb a3 (o_q3 o);
+     xlist_eqb chunks_eqb (map (fun a => ix_adjacent (snd a)) a1) (o_p1 o);
+     xlist_eqb chunks_eqb (map (fun a => ix_adjacent (snd a)) a3) (o_p3 o)].
 End Agree.
 
 Definition ix_explain (c : ixcase) : list bool :=
